@@ -31,7 +31,11 @@ if os.environ.get("C15_PROPOSED_FINDINGS"):
         self.open += [f for f in extra if f.get("status", "open") == "open" and f.get("id") not in have]
     common.Findings.__init__ = _init
 
-MODELLED = ("ethernet", "vlan", "llc", "arp", "ipv4", "udp", "tcp", "icmp", "echo", "unreach", "time_exceeded", "lldp")
+MODELLED = ("ethernet", "vlan", "llc", "arp", "ipv4", "udp", "tcp", "icmp", "echo", "unreach", "time_exceeded", "lldp",
+            # phase 2
+            "mpls", "eapol", "eap", "vxlan", "rip", "dns", "ipv6", "icmpv6", "TimeExceeded", "PacketTooBig", "NDRouterSolicitation",
+            "NDRouterAdvertisement", "NDNeighborSolicitation", "NDNeighborAdvertisement", "gre", "igmp")
+NO_RAW = ("icmp", "NDRouterSolicitation", "NDRouterAdvertisement", "NDNeighborSolicitation", "NDNeighborAdvertisement")
 UDP_FOREIGN = {67: "dhcp", 68: "dhcp", 53: "dns", 5353: "dns", 520: "rip", 4789: "vxlan"}
 
 
@@ -171,16 +175,55 @@ class C15(Check):
         if name == "tcp": return {"srcport": o.srcport, "dstport": o.dstport, "seq": o.seq, "ack": o.ack, "off": o.off, "res": o.res, "flags": o.flags,
                                   "win": o.win, "csum": o.csum, "urg": o.urg, "options": [self._opt(x) for x in o.options]}
         if name == "icmp": return {"type": o.type, "code": o.code, "csum": o.csum}
-        if name == "echo": return {"id": o.id, "seq": o.seq}
-        if name == "unreach": return {"unused": o.unused, "next_mtu": o.next_mtu}
+        mod = type(o).__module__.rsplit(".", 1)[-1]
+        if name == "echo" and mod == "icmp": return {"id": o.id, "seq": o.seq}
+        if name == "unreach" and mod == "icmp": return {"unused": o.unused, "next_mtu": o.next_mtu}
         if name == "time_exceeded": return {"unused": o.unused}
         if name == "lldp": return {"tlvs": [self._tlv(t) for t in o.tlvs]}
+        g = lambda a: getattr(o, a, None)
+        if name == "mpls": return {"label": o.label, "tc": o.tc, "s": o.s, "ttl": o.ttl}
+        if name == "eapol": return {"version": o.version, "type": o.type, "bodylen": o.bodylen}
+        if name == "eap": return {"code": o.code, "id": o.id, "length": o.length, "type": g("type")}
+        if name == "vxlan": return {"vni": o.vni}
+        if name == "rip": return {"command": o.command, "version": o.version,
+                                  "entries": [[e.address_family, e.route_tag, self._ip(e.ip), self._ip(e.netmask), self._ip(e.next_hop), e.metric] for e in o.entries]}
+        if name == "dns": return {"id": o.id, "qr": bool(o.qr), "opcode": o.opcode, "aa": bool(o.aa), "tc": bool(o.tc), "rd": bool(o.rd), "ra": bool(o.ra),
+                                  "z": bool(o.z), "ad": bool(o.ad), "cd": bool(o.cd), "rcode": o.rcode}
+        if name == "ipv6": return {"v": o.v, "tc": o.tc, "flow": o.flow, "payload_length": o.payload_length, "nh": o.next_header_type, "hop_limit": o.hop_limit,
+                                   "srcip": o.srcip.raw.hex(), "dstip": o.dstip.raw.hex(),
+                                   "ext": [[getattr(e, "TYPE", None), e.next_header_type, self._hex(getattr(e, "raw_body", None))] for e in o.extension_headers]}
+        if name == "icmpv6": return {"type": o.type, "code": o.code, "csum": o.csum}
+        if name == "echo": return {"id": o.id, "seq": o.seq}                   # icmpv6.echo (k = echo6)
+        if name == "unreach": return {"unused": o.unused}                      # icmpv6.unreach (k = unreach6)
+        if name == "TimeExceeded": return {}
+        if name == "PacketTooBig": return {"mtu": o.mtu[0] if isinstance(o.mtu, tuple) else o.mtu}
+        if name == "NDRouterSolicitation": return {"opts": self._ndo(o)}
+        if name == "NDRouterAdvertisement": return {"hop_limit": o.hop_limit, "managed": bool(o.is_managed), "other": bool(o.is_other), "lifetime": o.lifetime,
+                                                    "reachable": o.reachable, "retrans": g("retrans_time"), "opts": self._ndo(o)}
+        if name == "NDNeighborSolicitation": return {"target": o.target.raw.hex(), "opts": self._ndo(o)}
+        if name == "NDNeighborAdvertisement": return {"router": bool(o.is_router), "solicited": bool(o.is_solicited), "override": bool(o.is_override),
+                                                      "target": o.target.raw.hex(), "opts": self._ndo(o)}
+        if name == "gre": return {"type": o.type, "ver": o.ver, "ssr": bool(o.strict_source_route), "recursion": o.recursion, "csum": o.csum, "route_offset": o.route_offset,
+                                  "key": o.key, "seq": o.seq, "routing": None if o.routing is None else [[a, b, c, self._hex(d)] for a, b, c, d in o.routing]}
+        if name == "igmp": return {"vt": o.ver_and_type, "mrt": o.max_response_time, "csum": o.csum, "addr": None if o.address is None else self._ip(o.address),
+                                   "groups": [[r.type, self._ip(r.address), [self._ip(a) for a in r.source_addresses], self._hex(r.aux)] for r in o.group_records],
+                                   "extra": self._hex(o.extra)}
         return {}
+
+    def _ndo(self, o):
+        out = []
+        for x in o.options:
+            n = type(x).__name__
+            if n.endswith("LinkLayerAddress"): out.append({"t": x.TYPE, "addr": self._mac(x.address)})
+            elif n == "NDOptMTU": out.append({"t": 5, "mtu": x.mtu})
+            elif n == "NDOptPrefixInformation": out.append({"t": 3, "plen": x.prefix_length, "onlink": bool(x.on_link), "auto": bool(x.is_autonomous), "valid": x.valid_lifetime,
+                                                            "pref": x.preferred_lifetime, "prefix": x.prefix.raw.hex()})
+            else: out.append({"t": getattr(x, "TYPE", None), "raw": self._hex(getattr(x, "raw", None))})
+        return out
 
     def _is_modelled(self, o):
         name = type(o).__name__; mod = type(o).__module__.rsplit(".", 1)[-1]
         if name not in MODELLED: return False
-        if name in ("echo", "unreach") and mod != "icmp": return False
         if name == "tcp" and any(getattr(x, "type", None) == 30 for x in o.options): return False
         return True
 
@@ -193,11 +236,12 @@ class C15(Check):
             name = type(o).__name__
             if not self._is_modelled(o):
                 r = getattr(o, "raw", None)
-                out.append({"k": "foreign", "cls": "mptcp" if name == "tcp" else type(o).__module__.rsplit(".", 1)[-1] if name in ("echo", "unreach") else name,
+                out.append({"k": "foreign", "cls": "mptcp" if name == "tcp" else name,
                             "raw": self._hex(r), "parsed": bool(getattr(o, "parsed", False))})
                 return out
-            L = {"k": name, "parsed": bool(o.parsed), "raw": self._hex(getattr(o, "raw", None))}
-            if name == "icmp": del L["raw"]              # icmp.parse does not keep raw
+            k = name + "6" if name in ("echo", "unreach") and type(o).__module__.endswith("icmpv6") else name
+            L = {"k": k, "parsed": bool(o.parsed), "raw": self._hex(getattr(o, "raw", None))}
+            if name in NO_RAW: del L["raw"]              # icmp.parse does not keep raw; the NDP classes keep a slice that depends on the options
             if o.parsed or name in ("lldp", "llc"):
                 L.update(self.attrs(o))
             out.append(L)
@@ -347,6 +391,7 @@ class C15(Check):
     def model_obs(self, case, resp):
         self._last_model = resp
         if "error" in resp: return resp
+        if resp.get("known") == "K14": return {"declined": "K14"}
         if "exc" in resp: return {"exc": resp["exc"]}
         out = {"chain": resp["chain"]}
         if not resp["foreign"]:
@@ -357,9 +402,12 @@ class C15(Check):
         """what must equal the model's answer.  Where the model's chain ends in `foreign cls bytes` the implementation's chain is cut at
         the same place: the layer there must be an object of that class built from those bytes — or, for igmp / gre / a TCP segment with an
         MPTCP option, those same bytes (ipv4.parse replaces a payload object whose parse gave up by the bytes, ipv4.py:172-173)."""
+        m = getattr(self, "_last_model", None) or {}
+        if m.get("known") == "K14" and "parse_exc" not in obs:
+            # IPAddr(<0..3-byte slice>) is interpreted as a text address by libc's inet_aton: the model over-approximates "raises" (finding K14)
+            return {"declined": "K14"}
         if "parse_exc" in obs: return {"exc": obs["parse_exc"]["exc"]}
         ch = [dict(L) for L in obs["chain"]]
-        m = getattr(self, "_last_model", None) or {}
         mch = m.get("chain") or []
         foreign = bool(mch) and mch[-1].get("k") == "foreign"
         if foreign:
@@ -369,14 +417,14 @@ class C15(Check):
                 got = ch[i]
                 if got.get("k") == "foreign" and got.get("cls") == want["cls"] and got.get("raw") == want["raw"]:
                     ch = ch[:i] + [want]
-                elif want["cls"] in ("igmp", "gre", "mptcp") and got.get("k") == "bytes" and got.get("data") == want["raw"]:
+                elif want["cls"] in ("mptcp",) and got.get("k") == "bytes" and got.get("data") == want["raw"]:
                     ch = ch[:i] + [want]
         else:
             for L in ch: L.pop("cls_parsed", None)
         for L in ch:
             if L.get("k") == "foreign": L.pop("parsed", None)
         out = {"chain": ch}
-        if not foreign:
+        if not m.get("foreign"):            # pack / print are compared only when every layer is inside the pack/print model
             out["pack"] = obs["pack"] if isinstance(obs["pack"], str) else {"exc": obs["pack"]["exc"]}
             bad = [obs[k] for k in ("str", "dump") if isinstance(obs[k], dict)]
             out["print"] = {"exc": bad[0]["exc"]} if bad else "ok"
